@@ -60,6 +60,9 @@ func (g *gen) Add(name string, typs []types.Type) (string, error) {
 	if !ok {
 		return "", fmt.Errorf("%s, 2nd param %s, is not of type function", name, g.TypeString(typs[1]))
 	}
+	if sig.Variadic() {
+		return "", fmt.Errorf("%s, variadic functions are not supported", name)
+	}
 	results := sig.Results()
 	if results.Len() <= 0 {
 		return "", fmt.Errorf("%s, given function must return at least 1 bool type", name)
